@@ -19,3 +19,34 @@ Proof. intros. apply Mf_attained. Qed.
 Theorem C13_matching_le_every_path : forall d pen c i j p v,
   path_cost d pen 0 c i j p = Some v -> cle (full d pen c i j) v.
 Proof. intros d pen c i j p v. apply Mf_lower. Qed.
+
+(* The k-best iterator (_best_matches) as a state machine over the copied matching function (KBest.v): for every
+   matching function, every segment function with begin <= end and every k / overlap / minlength / maxlength the
+   yielded matches have non-decreasing values, distinct end points, lengths within the limits and pairwise
+   disjoint masked ranges; with overlap = 0 two matches (of length >= 2) share at most one boundary sample;
+   every iteration retires a live entry (termination). *)
+From DV Require Import KBest.
+
+Theorem C13_kbest_iterator : forall beg, (forall e, beg e <= e)%nat ->
+  forall overlap minlength maxlength maxinf k m,
+  let ys := kbest beg overlap minlength maxlength maxinf k m in
+  sorted_vals ys /\ pairwise (fun y y' => yend y <> yend y') ys /\ pairwise (masked_disjoint beg overlap) ys /\
+  (forall y, In y ys -> ybeg y = beg (yend y) /\ (yend y < length m)%nat /\
+                        (minlength <= yend y - ybeg y + 1)%nat /\
+                        (forall mx, maxlength = Some mx -> (yend y - ybeg y + 1 <= mx)%nat)) /\
+  (forall n, k = Some n -> (length ys <= n)%nat).
+Proof. intros. apply kbest_spec. assumption. Qed.
+
+Theorem C13_no_overlap_one_shared_sample : forall beg, (forall e, beg e <= e)%nat -> forall y y',
+  masked_disjoint beg 0 y y' -> (beg (yend y) < yend y)%nat -> (beg (yend y') < yend y')%nat ->
+  forall p q, (beg (yend y) <= p <= yend y)%nat -> (beg (yend y') <= p <= yend y')%nat ->
+              (beg (yend y) <= q <= yend y)%nat -> (beg (yend y') <= q <= yend y')%nat -> p = q.
+Proof. exact no_overlap_share_one_sample. Qed.
+
+Theorem C13_kbest_terminates : forall beg, (forall e, beg e <= e)%nat -> forall overlap minlength maxlength maxinf m,
+  match iter beg overlap minlength maxlength maxinf m with
+  | Stop => True
+  | Skip m' => (live m' < live m)%nat
+  | Yield m' _ _ _ => (live m' < live m)%nat
+  end.
+Proof. exact iter_retires. Qed.
